@@ -17,6 +17,7 @@ import (
 	"encoding/json"
 	"fmt"
 	"hash/fnv"
+	"regexp"
 	"sort"
 	"strings"
 	"sync"
@@ -119,6 +120,7 @@ func (c mutCase) baseTree() (*node, string) {
 // ---- evaluation of one mutant ------------------------------------------------------------
 
 type outcome struct {
+	unlocated  string // shape of an error message that carries no position at all
 	finding    *vk.Finding
 	labels     []string
 	nontrivial bool
@@ -318,10 +320,18 @@ func evalMutant(c mutCase) (o outcome) {
 			break // innermost only
 		}
 		if !located {
-			o.label("position:none")
+			o.label("position:none@%s", vj.Stage)
+			o.unlocated = unlocatedKey(vj.Err)
 		}
 	}
 	return o
+}
+
+var quotedRe = regexp.MustCompile(`"[^"]*"`)
+
+// unlocatedKey reduces a message to its shape (quoted names removed).
+func unlocatedKey(msg string) string {
+	return clip(quotedRe.ReplaceAllString(msg, `"…"`), 160)
 }
 
 // metamorphic compares the verdicts of the two spellings of the same data.
@@ -475,7 +485,7 @@ func regressionMutants() []mutCase {
 		}
 	}
 	// /a%0a% style keys: fixed in 9f821d33 (uri.NormalizeEscapedPath), must stay clean
-	add(pb, true, "escape", "%", "%0a%", "%zz", "%0a%zz", "%e4%b8", "pre:%", "pre:%0a%", "%%", "%2", "%2f%")
+	add(pb, true, "escape", "%", "%0a%", "%zz", "%0a%zz", "%e4%b8", "pre:%", "pre:%0a%", "%%", "%2", "%2f%", "%2F", "%25", "%e4%b8%96")
 	add(pa, true, "escape", "%0a%", "%", "pre:%0a%")
 	add(pet, false, "cycle", "replace-self", "allOf-self", "oneOf-self", "anyOf-self", "replace-root", "items-allOf-self")
 	add(refHolder, false, "cycle", "replace-root", "allOf-self")
@@ -502,9 +512,33 @@ func regressionMutants() []mutCase {
 func TestMutants(t *testing.T) {
 	u := vk.New(t, "C11", "mutants")
 	defer u.Close()
+	var unlocMu sync.Mutex
+	unloc := map[string]int{}
+	defer func() {
+		// the most frequent shapes of diagnostics without any position (not a
+		// violation of the property as stated; reported for information)
+		type kv struct {
+			K string
+			N int
+		}
+		var l []kv
+		for k, n := range unloc {
+			l = append(l, kv{k, n})
+		}
+		sort.Slice(l, func(i, j int) bool { return l[i].N > l[j].N || l[i].N == l[j].N && l[i].K < l[j].K })
+		if len(l) > 25 {
+			l = l[:25]
+		}
+		u.Set("unlocated_diagnostics_top", l)
+	}()
 	record := func(c mutCase, o outcome) *vk.Finding {
 		for _, l := range o.labels {
 			u.Label(l)
+		}
+		if o.unlocated != "" {
+			unlocMu.Lock()
+			unloc[o.unlocated]++
+			unlocMu.Unlock()
 		}
 		for _, n := range o.notes {
 			u.Note("%s", n)
@@ -542,10 +576,10 @@ func TestMutants(t *testing.T) {
 // rotates with VERIF_SEED and the site), sharded; larger specs (except the two
 // largest files, which are left out) are sampled by a seeded hash.
 const (
-	enumLimit     = 16 << 10
-	sampledLimit  = 600 << 10
+	enumLimit     = 40 << 10  // exhaustive up to this size (≈ 58 000 mutants)
+	sampledLimit  = 600 << 10 // larger bases (seconds per mutant) are sampled
 	enumParallel  = 2
-	sampledPerBig = 160
+	sampledPerBig = 400
 )
 
 func hash64(parts ...any) uint64 {
